@@ -14,7 +14,7 @@ use std::collections::HashSet;
 use std::fmt::Debug;
 use std::io::{Error, ErrorKind};
 use std::mem::MaybeUninit;
-use std::sync::Arc;
+use std::sync::{Arc, Mutex, MutexGuard, PoisonError};
 use std::thread::JoinHandle;
 use std::time::Duration;
 
@@ -48,7 +48,8 @@ impl_display_by_debug!(MonitorState);
 #[repr(C)]
 #[derive(Debug)]
 pub(crate) struct Monitor {
-    notify_queue: UnsafeCell<HashSet<NotifyNode>>,
+    // scheduling threads add and remove their nodes while the monitor thread scans them
+    notify_queue: Mutex<HashSet<NotifyNode>>,
     state: Cell<MonitorState>,
     thread: UnsafeCell<MaybeUninit<JoinHandle<()>>>,
     blocker: Arc<CondvarBlocker>,
@@ -57,7 +58,7 @@ pub(crate) struct Monitor {
 impl Default for Monitor {
     fn default() -> Self {
         Monitor {
-            notify_queue: UnsafeCell::default(),
+            notify_queue: Mutex::default(),
             state: Cell::new(MonitorState::Created),
             thread: UnsafeCell::new(MaybeUninit::uninit()),
             blocker: Arc::default(),
@@ -68,6 +69,12 @@ impl Default for Monitor {
 impl Monitor {
     fn get_instance<'m>() -> &'m Self {
         BeanFactory::get_or_default(MONITOR_BEAN)
+    }
+
+    fn nodes(&self) -> MutexGuard<'_, HashSet<NotifyNode>> {
+        self.notify_queue
+            .lock()
+            .unwrap_or_else(PoisonError::into_inner)
     }
 
     fn start(&self) -> std::io::Result<()> {
@@ -176,10 +183,16 @@ impl Monitor {
     fn monitor_thread_main() {
         let monitor = Self::get_instance();
         Self::init_current(monitor);
-        let notify_queue = unsafe { &*monitor.notify_queue.get() };
-        while MonitorState::Running == monitor.state.get() || !notify_queue.is_empty() {
+        loop {
+            // The nodes are scanned and signalled under the lock: a scheduling thread removes
+            // its node (which needs the lock) before it can go away, so every thread that is
+            // signalled here is still alive.
+            let notify_queue = monitor.nodes();
+            if MonitorState::Running != monitor.state.get() && notify_queue.is_empty() {
+                break;
+            }
             //只遍历，不删除，如果抢占调度失败，会在1ms后不断重试，相当于主动检测
-            for node in notify_queue {
+            for node in notify_queue.iter() {
                 if now() < node.timestamp {
                     continue;
                 }
@@ -208,6 +221,7 @@ impl Monitor {
                     }
                 }
             }
+            drop(notify_queue);
             //monitor线程不执行协程计算任务，每次循环至少wait 1ms
             monitor.blocker.clone().block(Duration::from_millis(1));
         }
@@ -328,8 +342,9 @@ impl Monitor {
 
     fn submit(timestamp: u64) -> std::io::Result<NotifyNode> {
         let instance = Self::get_instance();
+        // also serialises the first start of the monitor thread
+        let mut queue = instance.nodes();
         instance.start()?;
-        let queue = unsafe { &mut *instance.notify_queue.get() };
         cfg_if::cfg_if! {
             if #[cfg(unix)] {
                 let node = NotifyNode {
@@ -351,9 +366,7 @@ impl Monitor {
     }
 
     fn remove(node: &NotifyNode) -> bool {
-        let instance = Self::get_instance();
-        let queue = unsafe { &mut *instance.notify_queue.get() };
-        queue.remove(node)
+        Self::get_instance().nodes().remove(node)
     }
 }
 
@@ -648,7 +661,7 @@ mod tests {
         use crate::common::constants::CoroutineState;
         use crate::coroutine::Coroutine;
         use std::sync::atomic::{AtomicBool, AtomicU32, Ordering};
-        use std::sync::Arc;
+        use std::sync::{Arc, Mutex, MutexGuard, PoisonError};
         use std::time::Duration;
 
         let pair = Arc::new((std::sync::Mutex::new(true), std::sync::Condvar::new()));
